@@ -821,9 +821,17 @@ def unit_sdmx_grad(ctx):
     assumes = [x[1] for x in s.side if x[0] == "assume"]
     matched = set()
     for e in acc:
-        names = {q[0].args[0].split("#")[0]: q[0] for q in e.qvars}
+        # loops by structure, not by the names of their counters: worksharing variable (atom, block); degree l; order index over [0, 2l+1); grid point innermost
+        names = {}
+        if e.par is not None:
+            names["blk"] = e.par
+        inner = [q for q in e.qvars if q[0] is not e.par]
+        if len(inner) == 3:
+            (lq, llo, lhi, _), (mq, mlo, mhi, _), (gq, glo, ghi, _) = inner
+            if tm.lift(llo) is tm.ZERO and tm.lift(mlo) is tm.ZERO and NF().equal(tm.lift(mhi), 2 * lq + 1):
+                names.update({"l": lq, "m": mq, "g": gq})
         if not all(k in names for k in ("blk", "l", "m", "g")):
-            ctx.undecided("%s accumulation structure" % fn, "loop variables %s" % sorted(names), fq)
+            ctx.undecided("%s accumulation structure" % fn, "expected loops (atom-block; l; m < 2l+1; grid point), found %d loop variables" % len(e.qvars), fq)
             continue
         l, im, g = names["l"], names["m"], names["g"]
         v = tm.lift(e.val)
